@@ -356,6 +356,31 @@ class KeyedSet(Generic[ItemType, KeyType], MutableSet, KeyedBase):  # pylint: di
         except TypeError:
             pass
 
+    def __ior__(self, it):
+        # Validate every incoming item before adding any of them.
+        staged = {}
+        for value in it:
+            value, key = self._validate_item(value)
+            if self.enforce_item_equivalence:
+                for known in (self._dict, staged):
+                    if key in known and known[key] != value:
+                        raise ValueError(
+                            f"Item for `{repr(key)}` already exists, and is not equal to the incoming item."
+                        )
+            staged[key] = value
+        self._dict.update(staged)
+        return self
+
+    def __ixor__(self, it):
+        if it is self:
+            self.clear()
+        else:
+            # Build the result first, so that a rejected item changes nothing.
+            result = self ^ it
+            self._dict.clear()
+            self._dict.update(result._dict)  # pylint: disable=protected-access
+        return self
+
     def _from_iterable(self, it):  # pylint: disable=arguments-differ
         return self._type(
             it,
